@@ -47,6 +47,9 @@ def w_gen_cpp(case):
     from fcp import serde
     import fcp_cpp
 
+    if case.get("primer"):
+        # a schema parsed earlier in the same process, in which the names of this one mean something else
+        get_fcp_from_string(case["primer"], Logger({}))
     r = get_fcp_from_string(case["text"], Logger({}))
     if r.is_err():
         raise RuntimeError("schema rejected: " + repr(r.err()))
@@ -391,7 +394,8 @@ def run_core(rep, prop, tier, rng):
     sanitize = os.environ.get("VERIF_CPP_SANITIZE", "1") != "0"
     if prop == "C15":
         descs = descs + [d.permuted(rng) for d in descs]
-    gens = run_cases("harness.cpp", "w_gen_cpp", [{"text": d.text()} for d in descs], timeout_s=300, chunk=1)
+    gens = run_cases("harness.cpp", "w_gen_cpp", [dict({"text": d.text()}, **({"primer": gen.kind_swapped_primer(d)} if k % 2 == 0 else {}))
+                                                  for k, d in enumerate(descs)], timeout_s=300, chunk=1)
 
     def build_one(k):
         g = gens[k]
